@@ -203,6 +203,56 @@ impl Property for C02 {
         out.violation = compare_levels(&r0, &r1, 1).or_else(|| compare_levels(&r0, &r2, 2));
         out
     }
+    fn post(&self, tier: Tier, seed: u64, stats: &mut crate::runner::Stats) -> Option<(Scenario, Violation)> {
+        // RealWorld slice: -O1 and -O2 of the release binary against its own -O0 run
+        use crate::props::c01::{real_run, split_header};
+        let n = match tier {
+            Tier::Quick => 250,
+            Tier::Thorough => 15_000,
+        };
+        let (spawned, bad) = crate::runner::par_find(n, |i| {
+            let sc = crate::runner::make_scenario(self, seed, i, tier);
+            if parse_checked(&sc).is_err() {
+                return (0, None);
+            }
+            // only runs the model shows to terminate: a real process has no step clock
+            match total_budget(&sc) {
+                Some((_, Halt::Ended(End::End), _)) | Some((_, Halt::Ended(End::Exit(_)), _)) | Some((_, Halt::Ended(End::Encoding(_)), _)) => {}
+                _ => return (0, None),
+            }
+            let r0 = real_run(&sc, 0, "c02real");
+            if r0.timed_out || r0.signal.is_some() || r0.status == Some(101) {
+                return (1, None); // not this property's verdict
+            }
+            let (_, out0) = split_header(&r0.stdout, 2);
+            for level in 1u8..=2 {
+                let r = real_run(&sc, level, "c02real");
+                let (_, out) = split_header(&r.stdout, 3);
+                let ok = if r0.status == Some(1) && strip_diag(&r0.stderr).is_some() {
+                    // diagnosed ending at -O0: same kind, earlier text may be withheld
+                    r.status == Some(1) && out0.starts_with(&out) && strip_diag(&r.stderr).is_some()
+                } else {
+                    r.status == r0.status && !r.timed_out && out == out0 && r.stderr == r0.stderr
+                };
+                if !ok {
+                    let mut v = Violation::new(
+                        &format!("real-O{}-differs", level),
+                        format!("{} ; stdout {:?} ; stderr {:?}", r0.describe(), lossy(&out0), lossy(&r0.stderr)),
+                        format!("{} ; stdout {:?} ; stderr {:?}", r.describe(), lossy(&out), lossy(&r.stderr)),
+                    );
+                    v.world = "real";
+                    return (3, Some((sc, v)));
+                }
+            }
+            (3, None)
+        });
+        if bad.is_some() {
+            return bad;
+        }
+        stats.extra.push(("realworld_spawns".into(), J::Int(spawned as i64)));
+        stats.extra.push(("realworld_note".into(), J::str("release binary at -O0/-O1/-O2 on terminating scenarios, real pipes; a program whose -O0 run ends with exit status 1 and a diagnostic is compared by kind of ending")));
+        None
+    }
     fn components(&self) -> J {
         J::obj()
             .set("real", J::str("app::run::run at -O0/-O1/-O2 (parse, optimize::optimize incl. opt_execute, execute::execute on OptState/UnOptState), io::handle, number, std BufReader/write_all"))
